@@ -13,6 +13,7 @@ import KafkaVerif.Gen.MuxFacts
 import KafkaVerif.Model.WireProg
 import KafkaVerif.Model.ConnDeadline
 import KafkaVerif.Model.VarIntRead
+import KafkaVerif.Model.PoolDiscover
 
 namespace KV.C06
 open KV KV.ConnMux
@@ -1835,5 +1836,108 @@ theorem flow_tables_release_detached :
   set_option maxRecDepth 8192 in decide
 
 end Deadline
+
+/-! ## Part 7 — the pool's metadata refresh applies the answer to ITS request
+
+Model/PoolDiscover.lean.  "No call ever receives another call's response or a response left over from an exchange that
+was abandoned" also binds the calls the Transport makes for itself: the refresh loop of the connection pool abandons a
+refresh on its deadline and starts the next one while the connection goroutine may still deliver the outcome of the
+abandoned request.  With a promise per refresh that late outcome lands where nobody listens. -/
+
+section Discover
+open KV.PoolDiscover
+
+/-- every promise channel holds, if anything, the outcome of the request it was created for -/
+def PInv (s : PoolDiscover.State) : Prop :=
+  (∀ c r, s.chan c = some r → r.req = c) ∧ (∀ k r, (k, r) ∈ s.applied → r.req = k)
+
+theorem pinv_step {s s' : PoolDiscover.State} {e : PoolDiscover.Event} (hi : PInv s)
+    (h : PoolDiscover.step true s e = some s') : PInv s' := by
+  obtain ⟨hc, ha⟩ := hi
+  cases e with
+  | start =>
+    simp only [PoolDiscover.step] at h
+    split at h
+    · simp only [Option.some.injEq] at h; subst h; exact ⟨hc, ha⟩
+    · cases h
+  | complete j ok =>
+    simp only [PoolDiscover.step] at h
+    split at h
+    · simp only [Option.some.injEq] at h; subst h
+      refine ⟨?_, ha⟩
+      intro c r hr
+      simp only [chanOf, ↓reduceIte] at hr
+      split at hr
+      · next hcj => subst hcj; simp only [Option.some.injEq] at hr; subst hr; cases ok <;> rfl
+      · exact hc c r hr
+    · cases h
+  | take =>
+    simp only [PoolDiscover.step] at h
+    split at h
+    · next k hk =>
+      split at h
+      · next r hr =>
+        simp only [Option.some.injEq] at h; subst h
+        refine ⟨?_, ?_⟩
+        · intro c r' hr'
+          simp only at hr'
+          split at hr'
+          · cases hr'
+          · exact hc c r' hr'
+        · intro k' r' hm
+          simp only [List.mem_append, List.mem_singleton, Prod.mk.injEq] at hm
+          rcases hm with hm | ⟨rfl, rfl⟩
+          · exact ha k' r' hm
+          · have := hc _ _ hr; simpa [chanOf] using this
+      · cases h
+    · cases h
+  | timeout =>
+    simp only [PoolDiscover.step] at h
+    split at h
+    · next k hk =>
+      simp only [Option.some.injEq] at h; subst h
+      refine ⟨hc, ?_⟩
+      intro k' r' hm
+      simp only [List.mem_append, List.mem_singleton, Prod.mk.injEq] at hm
+      rcases hm with hm | ⟨rfl, rfl⟩
+      · exact ha k' r' hm
+      · rfl
+    · cases h
+
+theorem pinv_run : ∀ (es : List PoolDiscover.Event) (s s' : PoolDiscover.State), PInv s →
+    PoolDiscover.runFrom true s es = some s' → PInv s' := by
+  intro es
+  induction es with
+  | nil => intro s s' hi h; simp [PoolDiscover.runFrom] at h; subst h; exact hi
+  | cons e es ih =>
+    intro s s' hi h
+    simp only [PoolDiscover.runFrom] at h
+    split at h
+    · cases h
+    · next s1 h1 => exact ih s1 s' (pinv_step hi h1) h
+
+/-- **refresh_applies_own_outcome** — for every interleaving of the refresh loop (start, deadline) with the connection
+goroutine (late completions included): what refresh k gives to `p.update` is the outcome of request k — its answer, its
+error, or its own deadline — never the outcome of an earlier, abandoned request -/
+theorem refresh_applies_own_outcome (es : List PoolDiscover.Event) (s : PoolDiscover.State)
+    (h : PoolDiscover.run true es = some s) (k : Nat) (r : PoolDiscover.Res) (hm : (k, r) ∈ s.applied) : r.req = k :=
+  (pinv_run es PoolDiscover.init s ⟨by intro c r h; simp [PoolDiscover.init] at h, by intro k r h; simp [PoolDiscover.init] at h⟩ h).2 k r hm
+
+/-- the promise per refresh is needed (seed C06-m8: one channel for all refreshes): refresh 1 is abandoned on its
+deadline, refresh 2 starts, the late answer to request 1 arrives — and refresh 2 applies it as its own; its real answer
+is then applied by refresh 3: the cache runs one generation behind -/
+theorem shared_promise_counterexample :
+    (PoolDiscover.run false [.start, .timeout, .start, .complete 1 true, .take, .start, .complete 2 true, .take]).map
+      (·.applied) = some [(1, .error 1), (2, .answer 1), (3, .answer 2)] := by decide
+
+/-- with a promise per refresh the same schedule: the late answer stays in its abandoned promise -/
+theorem own_promise_example :
+    (PoolDiscover.run true [.start, .timeout, .start, .complete 1 true, .complete 2 true, .take]).map (·.applied) =
+      some [(1, .error 1), (2, .answer 2)] := by decide
+
+/-- the allocation site, re-read from transport.go this run -/
+theorem discover_promise_per_refresh : Gen.MuxFacts.discoverPromisePerRefresh = true := by decide
+
+end Discover
 
 end KV.C06
